@@ -46,6 +46,8 @@ CLAIMS = {
          "layouts in C++ are necessarily finite (11 instantiated); bundles containing SGal3 are not modelled; Random() is checked for validity only"),
  "C05": ("proof", "Jacobian = derivative stated with first-order dual numbers over an arbitrary ordered field: the SAME model code is evaluated at Dual K and f(X (+) eps d) = f(X) (+) eps (J d) is proved exactly, where exp(eps d) is what the model's own exp returns on an infinitesimal tangent. Proved: SE2 compose (both arguments), inverse, act (element and point); SO3 compose (both), inverse, act (point) - for every valid input, both quaternion hemispheres. Every Jacobian-returning operation x every mask x every group is tied bit-for-bit to the code; the oracle compares each Jacobian with a 60-digit central difference of the reference maps (step 1e-20) over rotation magnitudes 0..pi-1e-6 independently of translation size.",
          "Jacobians of exp/log (the rjac/rjacinv closed forms) and of the derived operations, and the composite groups, are covered by correspondence + oracle, theorems in progress; uniform 1e-6 floating accuracy is measured"),
+ "C19": ("proof", "Behaviour half ('each instantiation forwards to the documented behaviour of the canonical member') is proved for every scalar instance, group name, mask and argument list: every plain alias answers exactly what its canonical member answers, tangent-side forms return the canonical member evaluated with exchanged optional-output requests, errors are forwarded, alias resolution is idempotent and the tables are disjoint (theorems over the same Api table the driver resolves aliases through). Compile/link half: the finite matrix {documented entry} x {SO2,SE2,SO3,SE3,SE_2_3,SGal3,R1,R3,R7,two Bundles} x {float,double} x {owning,Map,Map<const>} is GENERATED (alias entries parsed out of Api.lean, the rest from the documented-API table) and enumerated completely by the compiler on every run: one function template per cell, explicit per-storage instantiation, all TUs linked into one program and run; every alias cell compares with the canonical member bit for bit on the same operands. A TU that fails is bisected into its one-entry client programs, which are the replay. The float instantiation is additionally tied bit-for-bit to the model at Float32 (same model code, single precision).",
+         "whether a C++ template instantiates is decided by the compiler (exhaustive enumeration of a finite matrix), not by a Lean theorem: Lean has no model of the C++ type system; the theorem covers the forwarding clause. Groups are the provided ones with Rn at N=1,3,7 and two bundle layouts (the matrix over all N and all layouts is infinite)"),
 }
 
 checks = []
